@@ -57,15 +57,17 @@ def run_bugs(run, sdir, module, bugs, expect="Inv"):
     run.cov["seeded_bugs_caught"] = [b for b, _ in res]
 
 
-def design_emit(run, sdir, module, name, cfgbytes, *, timeout=3000, heap="8g"):
-    """exhaustive design-level run; returns the inputs TLC printed (Emit = TRUE)"""
+def design_emit(run, sdir, module, name, cfgbytes, *, timeout=3000, heap="8g", record=True):
+    """exhaustive design-level run; returns the inputs TLC printed (Emit = TRUE).
+    record=False: the caller (another thread) calls run.add_design(name, r) itself."""
     r = vlib.tlc(sdir, module, "Run.cfg", workers=WORKERS, timeout=timeout, heap=heap, extra_files={"Run.cfg": cfgbytes})
     if r.timed_out:
         raise vlib.Inconclusive("design run %s timed out" % name)
     if not r.ok:
         raise vlib.Inconclusive("design run %s failed: the spec's reference operator violates %s on the unmodified spec\n%s"
                                 % (name, r.violation, r.out[-3000:]))
-    run.add_design(name, r)
+    if record:
+        run.add_design(name, r)
     cases = []
     for l in r.out.splitlines():
         if l.startswith('"{'):
@@ -185,7 +187,7 @@ def in_hash(a):
 # ---------------------------------------------------------------------------------------
 # C17
 CS = specdir("CompactStream")
-CS_BUGS = ["IgnoreSnaps", "IgnoreLowestSnap", "ElideAnyStripe", "ZeroAnyStripe", "SDelTwo"]
+CS_BUGS = ["IgnoreSnaps", "IgnoreLowestSnap", "ElideAnyStripe", "ZeroAnyStripe", "SDelTwo", "ElidedSDelOverSWD"]
 
 
 def cs_consts(nk, n, maxpts, maxrd, maxrk, kinds, dsz, snapset, nsfx=2, emit=True):
@@ -207,27 +209,45 @@ def run_c17(run):
     quick = run.tier == "quick"
     vlib.sany(CS, "CompactStream")
     vlib.sany(CS, "CompactStreamTrace")
-    run_bugs(run, CS, "CompactStream", CS_BUGS)
-    binp = vlib.build_driver("internal/verif/inputsdrv")
     # (scope name, constants): every scope is enumerated exhaustively by TLC
     if quick:
         scopes = [("pts N=3 K=2 kinds{SET,DEL,MERGE,SINGLEDEL} snaps<={2,3}", cs_consts(2, 3, 3, 0, 0, [0, 1, 2, 7], [], [2, 3])),
+                  # every stack of <= 3 versions of ONE key over every kind a compaction can receive as input, in particular the
+                  # kinds only earlier compactions write (SETWITHDEL, value-less / sized DELSIZED), under every snapshot/elision config
+                  ("1key N=3 K=1 all kinds incl. SETWITHDEL, DELSIZED{no size,exact,wrong} snaps<={2,3}", cs_consts(1, 3, 3, 0, 0, [0, 1, 2, 7, 18, 23], [0, 1, 2], [2, 3])),
                   ("rangedel N=3 K=2 <=1 point{SET,DEL,MERGE} <=1 rangedel", cs_consts(2, 3, 1, 1, 0, [0, 1, 2], [], [2, 3])),
                   ("rangekeys N=2 K=2 <=2 rangekeys 2 suffixes", cs_consts(2, 2, 0, 0, 2, [], [], [2]))]
         nrandom = 5000
     else:
         scopes = [("pts N=3 K=2 all kinds incl. SETWITHDEL, DELSIZED{exact,wrong} snaps<={2,3}", cs_consts(2, 3, 3, 0, 0, [0, 1, 2, 7, 18, 23], [1, 2], [2, 3])),
+                  ("1key N=4 K=1 all kinds incl. SETWITHDEL, DELSIZED{no size,exact,wrong} snaps<={2,3,4}", cs_consts(1, 4, 4, 0, 0, [0, 1, 2, 7, 18, 23], [0, 1, 2], [2, 3, 4])),
                   ("pts+rangedel N=3 K=2 kinds{SET,DEL,MERGE,SINGLEDEL} <=1 rangedel", cs_consts(2, 3, 3, 1, 0, [0, 1, 2, 7], [], [2, 3])),
                   ("pts N=4 K=2 kinds{SET,DEL,MERGE,SINGLEDEL} snaps<={2,3,4}", cs_consts(2, 4, 4, 0, 0, [0, 1, 2, 7], [], [2, 3, 4])),
                   ("spans N=3 K=2 <=1 point{SET,DEL,SINGLEDEL} <=1 rangedel <=1 rangekey", cs_consts(2, 3, 1, 1, 1, [0, 1, 7], [], [2, 3])),
                   ("rangekeys N=3 K=2 <=3 rangekeys 2 suffixes", cs_consts(2, 3, 0, 0, 3, [], [], [2, 3]))]
         nrandom = 100000
     tdir = vlib.scratch("verif.c17.")
-    total_acc = total_vac = total_rej = 0
+    # the scopes' design runs are independent: they are enumerated ahead (two at a time in quick) while the driver executes
+    # and TLC validates the cases of the scopes already enumerated
+    pool = concurrent.futures.ThreadPoolExecutor(max_workers=2 if quick else 1)
+    futs = [pool.submit(design_emit, run, CS, "CompactStream", "CompactStream/" + name,
+                        cfg_text("Spec", consts, invariants=["Inv", "Inv2", "EmitInv"]), heap="4g" if quick else "8g", record=False)
+            for name, consts in scopes]
+    try:
+        run_bugs(run, CS, "CompactStream", CS_BUGS)
+        binp = vlib.build_driver("internal/verif/inputsdrv")
+        total_acc, total_rej, allpairs = c17_scopes(run, quick, binp, tdir, scopes, futs)
+    finally:
+        pool.shutdown(wait=True, cancel_futures=True)
+    c17_random(run, quick, binp, tdir, nrandom, scopes, total_acc, total_rej, allpairs)
+
+
+def c17_scopes(run, quick, binp, tdir, scopes, futs):
+    total_acc = total_rej = 0
     allpairs = []
     for i, (name, consts) in enumerate(scopes):
-        r, cases = design_emit(run, CS, "CompactStream", "CompactStream/" + name,
-                               cfg_text("Spec", consts, invariants=["Inv", "Inv2", "EmitInv"]))
+        r, cases = futs[i].result()
+        run.add_design("CompactStream/" + name, r)
         if not cases:
             raise vlib.Inconclusive("TLC emitted no inputs for scope " + name)
         cf = os.path.join(tdir, "cases%d.jsonl" % i)
@@ -247,6 +267,11 @@ def run_c17(run):
             raise vlib.Inconclusive("TLC-emitted inputs judged inadmissible by the trace spec (%d)" % vac)
         total_acc += acc; total_rej += rej
         allpairs += pairs
+    return total_acc, total_rej, allpairs
+
+
+def c17_random(run, quick, binp, tdir, nrandom, scopes, total_acc, total_rej, allpairs):
+    total_vac = 0
     # seeded random inputs over larger parameters; TLC decides admissibility
     RNK, RN = 3, 6
     tf = os.path.join(tdir, "random.ndjson")
@@ -290,8 +315,9 @@ def run_c17(run):
                        "Compacted(in,out), i.e. all cases minus those whose input TLC judged contract-inadmissible; "
                        "distinct_nontrivial = distinct inputs (content hash) holding >= 2 internal keys/spans, minus the inadmissible count "
                        "(lower bound). Scopes listed in 'exhaustive' are fully enumerated by TLC and each emitted input was executed; "
-                       "random inputs: seeded, K=3 user keys, seqnums 1..6, all point kinds, <=2 range deletions, <=3 range keys, any snapshot "
-                       "subset of 1..7, elision none/partial/all/all+bottommost.")
+                       "random inputs: seeded, K=3 user keys, seqnums 1..6, all point kinds (three kind mixes: plain, SETWITHDEL/SINGLEDEL-heavy, "
+                       "DELSIZED-heavy), 1..3 keys sharing the seqnums, <=2 range deletions, <=3 range keys, snapshot subsets of 1..7 "
+                       "drawn with density 0/10/35 percent, elision none/partial/all/all+bottommost.")
     for a, b in (allpairs[len(allpairs) // 3], rpairs[0], rpairs[len(rpairs) // 2]):
         run.sample({"in": json.loads(a)["c"], "out": json.loads(b)["o"]})
     run.assumptions += [
